@@ -103,3 +103,17 @@ func VerifC03_string() {
 	vReach("string")
 	vAssert(f.String() == refMarshal(f, ^uint(0)), "string-is-unlimited-marshal")
 }
+
+// C10 (B) — rendering the fingerprint never panics, for any record and any limit.
+func VerifC10_marshal_nopanic() {
+	f := &HTTP2FingerprintingFrames{WindowUpdateIncrement: vU32("wu")}
+	for i, n := 0, vRange("nprio", 0, 3); i < n; i++ {
+		f.Priorities = append(f.Priorities, Priority{StreamId: vU32(vName("pid", i))})
+	}
+	for i, n := 0, vRange("nheaders", 0, 2); i < n; i++ {
+		f.Headers = append(f.Headers, HeaderField{Name: vString(vName("hname", i), vRange(vName("hlen", i), 0, 2))})
+	}
+	max := vUint("max")
+	vReach("marshal-ran")
+	vAssert(!vCatch(func() { f.Marshal(max) }), "marshal-no-panic")
+}
